@@ -41,6 +41,9 @@ type HelpCase struct {
 	Items    []HItem  `json:"items"`
 	Subs     []HSub   `json:"subs"`
 	Long     bool     `json:"long"` // obtain the help through --help (else through a rejected invocation)
+	// SelfHidden: the command under test is itself Hidden (set before it declares its sub commands): its own help must
+	// still list its non-hidden sub commands
+	SelfHidden bool `json:"self_hidden,omitempty"`
 }
 
 var vocabRe = regexp.MustCompile(`q[a-z]{1,6}[0-9]+z|QENV[0-9]+Z|QARG[0-9]+|73[0-9][0-9]|7[3-9]\.25`)
@@ -173,6 +176,9 @@ func helpOutput(c *HelpCase) (string, Outcome) {
 				}
 				cmd.Command(c.Parents[lvl], desc, func(s *cli.Cmd) { conf(s, lvl+1) })
 				return
+			}
+			if c.SelfHidden && lvl > 0 {
+				cmd.Hidden = true
 			}
 			for i := range c.Items {
 				declareHelpItem(cmd, &c.Items[i])
@@ -511,7 +517,14 @@ func checkHelpText(c *HelpCase, text string, st *Stats, book bool) *Violation {
 // GenHelpCase draws a help case from a distinctive vocabulary.
 func GenHelpCase(t *rapid.T) *HelpCase {
 	wc := 0
-	word := func() string { wc++; return fmt.Sprintf("qw%dz", wc) }
+	word := func() string {
+		wc++
+		if chance(t, 1, 12, "percent") {
+			// text is data, not a format string
+			return fmt.Sprintf("qw%dz%s", wc, rapid.SampledFrom([]string{"%d", "%", "%s%v", "100%"}).Draw(t, "pct"))
+		}
+		return fmt.Sprintf("qw%dz", wc)
+	}
 	mkDesc := func() string {
 		switch intn(t, 5, "desckind") {
 		case 0:
@@ -526,7 +539,7 @@ func GenHelpCase(t *rapid.T) *HelpCase {
 			return word()
 		}
 	}
-	c := &HelpCase{Desc: word(), Long: chance(t, 2, 3, "longhelp")}
+	c := &HelpCase{Desc: word(), Long: chance(t, 2, 3, "longhelp"), SelfHidden: chance(t, 1, 5, "selfhidden")}
 	for i, n := 0, rapid.IntRange(0, 2).Draw(t, "depth"); i < n; i++ {
 		c.Parents = append(c.Parents, fmt.Sprintf("pcmd%d", i))
 	}
